@@ -53,7 +53,7 @@ enum { ST_NONE = 0, ST_INPUT, ST_ACCEPTED, ST_RUNNING, ST_DONE, ST_REJECTED };
 static int msg_v[MAXM]; static int msg_st[MAXM]; static unsigned nmsg;
 static unsigned off[MAXM][3], want[MAXM][3];
 static unsigned succ_push[3];        /* edge to successor s is in push mode (registered in the node's successor cache) */
-static unsigned outc;                /* body output = input + outc */
+static unsigned outc;                /* body output = input ^ outc (a symbolic bijection that is trivial for the SAT solver, unlike + / -) */
 static unsigned running, inline_running, body_tasks_created, task_bodies_finished, nbody, nsinkcall, noffer, acc_bits, flip_bits;
 static unsigned cancelled, nreserved, task_body_pending, in_task;
 static unsigned live_ext, live_arena; static u8 owner_arena[2][TASKMAX];
@@ -98,7 +98,9 @@ u32 vp_body(u32 uv) {
   if (CONC != 0) { VP_ASSERT(running <= CONC, "more bodies running at once than the concurrency limit");
     VP_ASSERT(inflight() <= CONC, "running bodies + pending body tasks exceed the concurrency limit"); }
 #if defined(FIFO)
-  VP_ASSERT((unsigned)k == fifo_next, "serial queueing node: bodies not started in acceptance order"); fifo_next++;
+  /* serial node: bodies start in the order the messages were offered (rejected ones are skipped; with "everything accepted is
+     processed" at the end this is exact FIFO for the queueing policies) */
+  VP_ASSERT((unsigned)k >= fifo_next, "serial node: bodies not started in acceptance order"); fifo_next = (unsigned)k + 1;
 #endif
   VP_ASSERT(vp_graph_refs() == refs_expected(), "graph wait count wrong while a body runs");
   if (in_task) VP_ASSERT(vp_graph_refs() >= 1, "graph wait count is 0 while a task's body is running (wait_for_all could return)");
@@ -108,11 +110,11 @@ u32 vp_body(u32 uv) {
   running--; if (mine_is_task) task_bodies_finished++; else inline_running--;
   msg_st[k] = ST_DONE;
   for (unsigned s = 0; s < NSUCC; s++) want[k][s] = succ_push[s];
-  return (u32)v + outc;
+  return (u32)v ^ outc;
 }
 u32 vp_sink(u32 id, u32 o) {
   VP_ASSERT(id < NSUCC, "offer to an unknown successor");
-  int k = find_v((int)(o - outc));
+  int k = find_v((int)(o ^ outc));
   VP_ASSERT(k >= 0 && msg_st[k] == ST_DONE, "successor offered something that is not the output of a finished body");
   VP_ASSERT(succ_push[id], "message pushed along an edge that is in pull mode");
   VP_ASSERT(off[k][id] == 0, "output offered twice to the same successor");
@@ -196,7 +198,7 @@ static void run(unsigned accpat, unsigned flippat) {
   for (unsigned i = 0; i < MAXM; i++) { msg_st[i] = ST_NONE; for (unsigned s = 0; s < 3; s++) off[i][s] = want[i][s] = 0; }
   for (unsigned k = 0; k < 2; k++) for (unsigned i = 0; i < TASKMAX; i++) owner_arena[k][i] = 0xff;
   for (unsigned s = 0; s < 3; s++) succ_push[s] = s < NSUCC;
-  outc = (unsigned)vp_nd(); __CPROVER_assume(outc != 0);
+  outc = 0x40000000u;   /* concrete: with a symbolic mask the solver has to re-derive (v ^ c) ^ c == v bit by bit inside every message identification */
   vp_init(CONC, NSUCC);
   vp_refv_init(0); vp_refv_init(1);
   for (int s = 0; s < NOPS; s++) {
